@@ -19,7 +19,7 @@ import sys
 sys.path.insert(0, os.path.dirname(os.path.dirname(os.path.abspath(__file__))))
 import common  # noqa: E402
 from common import Check, model_check, validate_traces, MachineryError  # noqa: E402
-from rt import cases as K, cgen  # noqa: E402
+from rt import cases as K, cgen, libgen  # noqa: E402
 
 
 def run(tier):
@@ -38,13 +38,26 @@ def run(tier):
         configs.append(("custom-prefix", {}, ["--option", "C_line_length=60"]))
         if thorough:
             configs.append(("debug-off", {"debug": True, "show_splicer_comments": False}, []))
+        configs = [(n, o, a, K.base_cases(), True) for n, o, a in configs]
+        # libraries out of the TLA+ grammar LibGen (specs/LibGen.tla): every pairing of rows TLC happens to draw
+        libs, rl = libgen.sample_libraries(400 if thorough else 12, common.seed())
+        c.add_tlc(rl, "LibGen/simulate")
+        nlib = 0
+        for lib in libs:
+            if lib["language"] != "c++" or nlib >= (160 if thorough else 3):
+                continue
+            cs = libgen.cases_of(lib)
+            opts = libgen.driver_options(lib)
+            opts.pop("F_CFI")
+            configs.append(("libgen%d" % nlib, opts, [], cs, lib["class"]))
+            nlib += 1
         traces, labels = [], []
         with common.scratch("c02-") as base:
             def one(cfg):
-                name, opts, argv = cfg
-                return name, cgen.build_and_run_c(os.path.join(base, name), K.base_cases(), True,
+                name, opts, argv, cs, wc = cfg
+                return name, cgen.build_and_run_c(os.path.join(base, name), cs, wc,
                                                   6 if thorough else 3, opts, argv)
-            with cf.ThreadPoolExecutor(4) as ex:
+            with cf.ThreadPoolExecutor(max(4, common.NCPU // 2)) as ex:
                 res = list(ex.map(one, configs))
         for name, rr in res:
             for kind, what in rr["problems"]:
